@@ -207,10 +207,60 @@ def rule_memory_check_shape(ctx, rep, rid: str) -> None:
 
 
 # ----------------------------------------------------------------------- C01-R3
+def _poll_shape(scope_node: ast.AST, stmts: List[ast.stmt], r: ast.Raise) -> Tuple[List[str], Optional[str], Optional[ast.If]]:
+    """Check the guards of a `raise RegexTimeoutError` found in `stmts` (a loop body or a helper body).
+    Returns (problems, counter expression text, outermost guarding if)."""
+    probs: List[str] = []
+    counter = None
+    poll_called = False
+    for a, pol in [x for t, p in guards_of(r, scope_node) for x in atoms(t, p)]:
+        txt = norm(a)
+        if pol and isinstance(a, ast.Compare) and isinstance(a.left, ast.BinOp) and isinstance(a.left.op, ast.Mod) and isinstance(a.ops[0], ast.Eq) and norm(a.comparators[0]) == "0":
+            counter = norm(a.left.left)
+            k = a.left.right
+            if not (norm(k) == "self.poll_interval" or (isinstance(k, ast.Constant) and isinstance(k.value, int) and 1 <= k.value <= 10000)):
+                probs.append(f"poll period {norm(k)} is neither self.poll_interval nor a literal in 1..10000")
+        elif pol and txt in ("self.poll_callback", "self.poll_callback is not None"):
+            pass
+        elif pol and txt == "self.poll_callback()":
+            poll_called = True
+        else:
+            probs.append(f"unexpected guard on the deadline poll: {'' if pol else 'not '}{txt}")
+    if not poll_called:
+        probs.append("RegexTimeoutError is not guarded by a call of self.poll_callback()")
+    if counter is None:
+        probs.append("deadline poll is not keyed to a step counter modulo the poll interval")
+    return probs, counter, _outermost_if(r, scope_node)
+
+
+def _poll_helpers(ctx) -> Dict[int, Tuple[Func, str]]:
+    """Methods of the regex VM that count a step and poll the deadline on every call: id -> (func, counter)."""
+    cls = ctx.facts.regex_vm_class()
+    out: Dict[int, Tuple[Func, str]] = {}
+    loopf = {id(f) for f, _ in ctx.facts.matcher_loops()}
+    for m in cls.methods.values():
+        if id(m) in loopf:
+            continue
+        rs = raises_in(m.body(), "RegexTimeoutError")
+        if not rs:
+            continue
+        probs, counter, outer = _poll_shape(m.node, m.body(), rs[0])
+        if probs or counter is None or outer is None:
+            continue
+        # the poll `if` and an unconditional increment of the counter are top-level statements of the helper
+        top = m.body()
+        inc = [s for s in top if isinstance(s, ast.AugAssign) and norm(s.target) == counter and isinstance(s.op, ast.Add)]
+        if outer in top and inc and top.index(inc[0]) < top.index(outer) and not any(isinstance(s, ast.Return) for s in top[: top.index(outer)]):
+            out[id(m)] = (m, counter)
+    return out
+
+
 def rule_matcher_loop_poll(ctx, rep, rid: str, budgets: bool = False, rid_budget: str = "") -> None:
-    rep.rule(rid, "every regex matcher loop increments a step counter and polls the deadline callback every poll_interval steps on every iteration path, raising RegexTimeoutError", floor=3)
+    rep.rule(rid, "every regex matcher loop increments a step counter and polls the deadline callback every poll_interval steps on every iteration path (inline or through a helper it calls unconditionally), raising RegexTimeoutError; nothing the loop calls resets the counter", floor=3)
     if budgets:
         rep.rule(rid_budget, "every regex matcher loop checks the step budget and the backtrack-stack budget on every iteration path", floor=3)
+    helpers = _poll_helpers(ctx)
+    cg = ctx.cg
     for f, loop in ctx.facts.matcher_loops():
         cfg = ctx.facts.cfg(f)
         head = cfg.loop_head[id(loop)]
@@ -218,66 +268,68 @@ def rule_matcher_loop_poll(ctx, rep, rid: str, budgets: bool = False, rid_budget
         key = f"{f.qual}:matcher-loop"
         loc = f"{f.module.rel}:{loop.lineno}"
         rs = [r for r in raises_in(loop.body, "RegexTimeoutError")]
-        if not rs:
-            rep.bad(rid, key, f"matcher loop in {f.qual} never raises RegexTimeoutError (no deadline poll)", loc)
-        else:
-            r = rs[0]
-            probs = []
-            counter = None
-            outer_if = None
-            poll_called = False
-            for test, pol in guards_of(r, loop):
-                outer_if = test
-            for a, pol in [x for t, p in guards_of(r, loop) for x in atoms(t, p)]:
-                txt = norm(a)
-                if pol and isinstance(a, ast.Compare) and isinstance(a.left, ast.BinOp) and isinstance(a.left.op, ast.Mod) and isinstance(a.ops[0], ast.Eq) and norm(a.comparators[0]) == "0":
-                    counter = norm(a.left.left)
-                    k = a.left.right
-                    if not (norm(k) == "self.poll_interval" or (isinstance(k, ast.Constant) and isinstance(k.value, int) and 1 <= k.value <= 10000)):
-                        probs.append(f"poll period {norm(k)} is neither self.poll_interval nor a literal in 1..10000")
-                elif pol and txt == "self.poll_callback":
-                    pass
-                elif pol and txt == "self.poll_callback()":
-                    poll_called = True
-                elif pol and txt == "self.poll_callback is not None":
-                    pass
-                else:
-                    probs.append(f"unexpected guard on the deadline poll: {'' if pol else 'not '}{txt}")
-            if not poll_called:
-                probs.append("RegexTimeoutError is not guarded by a call of self.poll_callback()")
-            # every iteration path passes the outermost guarding test and the counter increment
-            poll_stmt = _outermost_if(r, loop)
+        probs: List[str] = []
+        counter = None
+        pn = None
+        via = None
+        if rs:
+            probs, counter, poll_stmt = _poll_shape(loop, loop.body, rs[0])
             pn = cfg.node_of_stmt.get(id(poll_stmt)) if poll_stmt is not None else None
             if pn is None:
                 probs.append("deadline poll is not inside an if statement of the loop")
+        else:
+            # a helper that polls, called on every iteration
+            calls = [n for n in cfg.nodes if n.id in within and node_calls(n, lambda c: any(id(t) in helpers for t in (cg.site_of_call.get(id(c)).targets if cg.site_of_call.get(id(c)) else [])))]
+            if not calls:
+                rep.bad(rid, key, f"matcher loop in {f.qual} neither raises RegexTimeoutError nor calls a helper that counts a step and polls the deadline", loc)
+                if budgets:
+                    _budget_checks(ctx, rep, rid_budget, f, loop, cfg, head, within, helpers)
+                continue
+            pn = calls[0]
+            hid = [id(t) for c in walk_no_nested(pn.ast) if isinstance(c, ast.Call) and cg.site_of_call.get(id(c)) for t in cg.site_of_call[id(c)].targets if id(t) in helpers][0]
+            via, counter = helpers[hid]
+        if pn is not None:
+            p = cfg.path_avoiding(head.id, lambda n: n.id == head.id, {pn.id}, within, start_succ=True)
+            if p is not None:
+                probs.append(f"an iteration path [{path_str(p)}] reaches the loop head again without passing the poll at line {pn.line}")
+        if counter is not None and via is None:
+            incs = [n for n in cfg.nodes if n.id in within and isinstance(n.ast, ast.AugAssign) and norm(n.ast.target) == counter and isinstance(n.ast.op, ast.Add)]
+            if not incs:
+                probs.append(f"step counter {counter} is never incremented in the loop")
             else:
-                p = cfg.path_avoiding(head.id, lambda n: n.id == head.id, {pn.id}, within, start_succ=True)
+                p = cfg.path_avoiding(head.id, lambda n: n.id == head.id, {n.id for n in incs}, within, start_succ=True)
                 if p is not None:
-                    probs.append(f"an iteration path [{path_str(p)}] reaches the loop head again without passing the poll test at line {pn.line}")
-            if counter is not None:
-                incs = [n for n in cfg.nodes if n.id in within and isinstance(n.ast, ast.AugAssign) and norm(n.ast.target) == counter and isinstance(n.ast.op, ast.Add)]
-                if not incs:
-                    probs.append(f"step counter {counter} is never incremented in the loop")
-                else:
-                    p = cfg.path_avoiding(head.id, lambda n: n.id == head.id, {n.id for n in incs}, within, start_succ=True)
+                    probs.append(f"an iteration path [{path_str(p)}] does not increment {counter}")
+                if pn is not None:
+                    p = cfg.path_avoiding(head.id, lambda n: n.id == pn.id, {n.id for n in incs}, within, start_succ=True)
                     if p is not None:
-                        probs.append(f"an iteration path [{path_str(p)}] does not increment {counter}")
-                    if pn is not None:
-                        # the increment must come before the poll test on the path from the head
-                        p = cfg.path_avoiding(head.id, lambda n: n.id == pn.id, {n.id for n in incs}, within, start_succ=True)
-                        if p is not None:
-                            probs.append(f"poll test reachable before {counter} is incremented")
-                resets = [n for n in cfg.nodes if n.id in within and isinstance(n.ast, ast.Assign) and any(norm(t) == counter for t in n.ast.targets)]
-                if resets:
-                    probs.append(f"step counter {counter} is reset inside the loop at line {resets[0].line}")
-            else:
-                probs.append("deadline poll is not keyed to a step counter modulo the poll interval")
-            if probs:
-                rep.bad(rid, key, f"matcher loop in {f.qual}: " + "; ".join(probs), loc)
-            else:
-                rep.ok(rid, key, {"loop": loc, "poll_test_line": pn.line, "counter": counter})
+                        probs.append(f"poll test reachable before {counter} is incremented")
+        if counter is not None:
+            resets = [n for n in cfg.nodes if n.id in within and isinstance(n.ast, ast.Assign) and any(norm(t) == counter for t in n.ast.targets)]
+            if resets:
+                probs.append(f"step counter {counter} is reset inside the loop at line {resets[0].line}")
+            if counter.startswith("self."):
+                # an attribute counter is shared: nothing reachable from the loop body may overwrite it
+                roots: List[Func] = []
+                for n in cfg.nodes:
+                    if n.id in within and n.ast is not None:
+                        for c in walk_no_nested(n.ast):
+                            if isinstance(c, ast.Call) and cg.site_of_call.get(id(c)) and cg.site_of_call[id(c)].kind == "resolved":
+                                roots.extend(cg.site_of_call[id(c)].targets)
+                par = cg.reach(roots)
+                for fid in par:
+                    g = cg._func_by_id[fid]
+                    if g.name == "__init__":
+                        continue  # construction of another object
+                    for x in g.own_nodes():
+                        if isinstance(x, ast.Assign) and any(norm(t) == counter for t in x.targets):
+                            probs.append(f"{g.qual} (reachable from the loop body) overwrites the shared step counter {counter} at line {x.lineno}: every nested assertion restarts the outer loop's step count, so neither the poll period nor the step budget is ever reached")
+        if probs:
+            rep.bad(rid, key, f"matcher loop in {f.qual}: " + "; ".join(dict.fromkeys(probs)), loc)
+        else:
+            rep.ok(rid, key, {"loop": loc, "poll_line": pn.line if pn else None, "counter": counter, "via": via.qual if via else "inline"})
         if budgets:
-            _budget_checks(ctx, rep, rid_budget, f, loop, cfg, head, within)
+            _budget_checks(ctx, rep, rid_budget, f, loop, cfg, head, within, helpers)
 
 
 def _outermost_if(node: ast.AST, stop: ast.AST) -> Optional[ast.If]:
@@ -290,8 +342,10 @@ def _outermost_if(node: ast.AST, stop: ast.AST) -> Optional[ast.If]:
     return out
 
 
-def _budget_checks(ctx, rep, rid, f, loop, cfg, head, within) -> None:
+def _budget_checks(ctx, rep, rid, f, loop, cfg, head, within, helpers=None) -> None:
     loc = f"{f.module.rel}:{loop.lineno}"
+    cg = ctx.cg
+    helpers = helpers or {}
     for what, limit_attr in (("step", "self.step_limit"), ("stack", "self.stack_limit")):
         key = f"{f.qual}:matcher-loop:{what}-budget"
         tests = []
@@ -299,6 +353,22 @@ def _budget_checks(ctx, rep, rid, f, loop, cfg, head, within) -> None:
             if n.id in within and n.kind == "test" and isinstance(n.ast, ast.Compare) and limit_attr in norm(n.ast) and isinstance(n.ast.ops[0], (ast.Gt, ast.GtE)):
                 tests.append(n)
         if not tests:
+            # the budget may be enforced by the per-step helper (it must raise there: it cannot return for the loop)
+            via = None
+            for n in cfg.nodes:
+                if n.id in within and n.ast is not None:
+                    for c in walk_no_nested(n.ast):
+                        cs = cg.site_of_call.get(id(c)) if isinstance(c, ast.Call) else None
+                        for t in (cs.targets if cs else []):
+                            if id(t) in helpers:
+                                for x in t.own_nodes():
+                                    if isinstance(x, ast.If) and isinstance(x.test, ast.Compare) and limit_attr in norm(x.test) and any(isinstance(s, ast.Raise) for s in x.body) and x in t.body():
+                                        via = (n, t)
+            if via:
+                p = cfg.path_avoiding(head.id, lambda n: n.id == head.id, {via[0].id}, within, start_succ=True)
+                if p is None:
+                    rep.ok(rid, key, {"via": via[1].qual})
+                    continue
             rep.bad(rid, key, f"matcher loop in {f.qual} has no {what} budget test against {limit_attr}", loc)
             continue
         p = cfg.path_avoiding(head.id, lambda n: n.id == head.id, {t.id for t in tests}, within, start_succ=True)
